@@ -46,17 +46,28 @@ def praj_quantiles(o):
     hence N_10 <= N_50 <= N_90 (log-domain, Phi^-1 monotone)"""
     import ast
     from pv import extract
+    from pv.api import Unbound
+    from pv.interp import Frame, Func
+    from pv.npmodel import LibNS, Builtin
     mod = extract.load_module('pylife.strength.fkm_nonlinear.damage_calculator')
     node = mod.find('DamageCalculatorPRAJ.get_lifetime_functions')
-    src = ast.get_source_segment(mod.source, node)
-    o.functions.add((mod.name, 'DamageCalculatorPRAJ.get_lifetime_functions'))
-    # the closed form is read off the source text (syntactic match of the three statements), then the monotonicity is an obligation over it
-    ok = ('log_gamma_M = (0.8*beta - 2)*0.155' in src and 'reduction_factor_P = np.log10(f_25) - log_gamma_M' in src
-          and 'reduction_factor_N = reduction_factor_P * abs(1/self._component_woehler_curve_P_RAJ.d)' in src.replace('  ', ' ')) or \
-         ('(0.8*beta - 2)*0.155' in src and 'np.log10(f_25)' in src)
-    o.prove('N_max_bearable has the verified closed form (syntactic)', z3.BoolVal(bool(ok)))
-    Nbar, f25, d, p1, p2 = o.reals('N_bar f_25 d P_1 P_2')
-    o.assume(Nbar > 0, f25 > 0, d < 0, p1 > 0, p1 < p2, p2 < 1)
+    o.functions.add((mod.name, 'DamageCalculatorPRAJ.get_lifetime_functions.<locals>.N_max_bearable'))
+    inner = [n for n in node.body if isinstance(n, ast.FunctionDef) and n.name == 'N_max_bearable']
+    if not inner:
+        raise Unbound('N_max_bearable not found in get_lifetime_functions')
+    Nbar, f25, sw, PA, p1, p2 = o.reals('N_bar f_25 slope_woehler P_A P_1 P_2')
+    o.assume(Nbar > 0, f25 > 0, sw > 0, PA > 0, PA < 1, p1 > 0, p1 < p2, p2 < 1)
+    # the real nested function is executed symbolically with its closure variables as symbols (f_25, slope_woehler = |1/d|, lifetime_n_cycles = N_bar) and
+    # compute_beta under its contract beta = -Phi^-1(P_A) (proved in C09 for the case that the root search reports success)
+    pylife_ns = LibNS('pylife', {'strength': LibNS('pylife.strength', {'fkm_nonlinear': LibNS('pylife.strength.fkm_nonlinear', {
+        'parameter_calculations': LibNS('pc', {'compute_beta': Builtin('compute_beta', lambda q: SV(-Pinv(q.t if isinstance(q, SV) else RV(float(q)))))})})})})
+    outer = Frame(o.I, mod, {'f_25': SV(f25), 'slope_woehler': SV(sw), 'lifetime_n_cycles': SV(Nbar), 'pylife': pylife_ns}, None,
+                  'pylife.strength.fkm_nonlinear.damage_calculator::DamageCalculatorPRAJ.get_lifetime_functions', node=node)
+    f = Func(inner[0], mod, outer, 'pylife.strength.fkm_nonlinear.damage_calculator::DamageCalculatorPRAJ.get_lifetime_functions.<locals>.N_max_bearable')
+    got = o.run1(lambda: o.I.call(f, [SV(PA)]), label='N_max_bearable')
+    o.prove('N_max_bearable(P_A) == N_bar 10^((log10 f_25 - (0.8 beta - 2) 0.155) slope_woehler) with beta = -Phi^-1(P_A)',
+            lg(got.t) == lg(Nbar) + (lg(f25) - (RV(0.8) * (-Pinv(PA)) - 2) * RV(0.155)) * sw, pairs=False)
+    d = -1 / sw
 
     def N(p):
         beta = -Pinv(p)
